@@ -497,14 +497,15 @@ def st_tables(max_models=3, max_chains=3, max_residues=5, max_atoms=8, altlocs=T
                         })
                         serial += 1
         if clashes and len(atoms) >= 2 and draw(st.booleans()):
-            # plant one isolated close pair: move atom j next to atom i (0.1-0.4 A) within the same model
+            # plant one isolated close pair: move atom j next to atom i (0.1-0.6 A) within the same model
             i = draw(st.integers(0, len(atoms) - 1))
             same = [k for k in range(len(atoms)) if atoms[k]["model"] == atoms[i]["model"] and k != i
                     and (atoms[k]["chain"], atoms[k]["resseq"], atoms[k]["icode"], atoms[k]["name"]) !=
                     (atoms[i]["chain"], atoms[i]["resseq"], atoms[i]["icode"], atoms[i]["name"])]
             if same:
                 j = same[draw(st.integers(0, len(same) - 1))]
-                d = draw(st.sampled_from([0.1, 0.2, 0.3, 0.4]))
+                # well inside the 0.5 A limit, and on both sides of it at the resolution of the coordinate columns
+                d = draw(st.sampled_from([0.1, 0.2, 0.3, 0.4, 0.45, 0.499, 0.501, 0.55, 0.6]))
                 atoms[j]["x"] = round(atoms[i]["x"] + d, 3) if atoms[i]["x"] + d <= 999.999 else round(atoms[i]["x"] - d, 3)
                 atoms[j]["y"] = atoms[i]["y"]
                 atoms[j]["z"] = atoms[i]["z"]
